@@ -116,7 +116,11 @@ def _events(args):
             if r < 0.45:
                 a, b = rnd.randrange(-2, n + 3), rnd.randrange(-2, n + 3)
                 mode = rnd.random()
-                if mode < 0.6:
+                if mode < 0.12:
+                    # an EMPTY window inside, at the start or at the very end (the middle piece of a split)
+                    a = b = rnd.choice([0, n, rnd.randrange(0, n + 1)])
+                    key, ar = slice(a, b), [a, b, 1, False]
+                elif mode < 0.6:
                     key, ar = slice(a, b), [a, b, 1, False]
                 elif mode < 0.7:
                     key, ar = slice(None, b), [0, b, 1, True]
@@ -196,6 +200,8 @@ def _events(args):
 def _key(ev, clause):
     if clause in ("slice:selfoverlap-order", "revcomp:selfoverlap-order", "append:selfoverlap-order"):
         return "loc:selfoverlap-order"
+    if clause == "slice:empty-at-end-of-compound-location":
+        return "seq:empty-slice-at-end-of-compound-location"
     return None
 
 
